@@ -27,6 +27,13 @@ def nest_source(kind, n):
         body = "".join("  if true {\n" for _ in range(n)) + "  > 1\n" + "".join("  }\n" for _ in range(n))
     elif kind == "async":
         body = "  > " + "await async {\n > " * n + "1" + "\n}" * n + "\n"
+    elif kind == "index-of-block":
+        # a statement that starts like an element assignment (`x[ ... ]`) whose index holds a block whose statement starts
+        # the same way: deciding "assignment or expression?" by parsing and starting over doubles the work per level
+        body = "  x[0]\n"
+        for _ in range(n):
+            body = "  x[await async {\n" + body + "  > 1\n  }]\n"
+        body = "  $ x = [1]\n" + body + "  > 1\n"
     else:
         pre, o, mid, c, post = NEST[kind]
         body = pre + o * n + mid + c * n + post
@@ -239,6 +246,11 @@ def source(ck, tier, seed):
     for kind in list(NEST) + ["block", "async"]:
         for d in depths:
             nest.append({"cid": len(feed) + len(nest), "what": {"kind": "nest/" + kind, "n": d}, "text": nest_source(kind, d)})
+    for d in (8, 16, 24, 32, 64, 200):
+        nest.append({"cid": len(feed) + len(nest), "what": {"kind": "nest/index-of-block", "n": d}, "text": nest_source("index-of-block", d)})
+    # prefix operators are the cheapest way to nest (one byte a level): 3 MB of them, in both tiers
+    for kind in ("neg", "not"):
+        nest.append({"cid": len(feed) + len(nest), "what": {"kind": "nest/" + kind, "n": 3000000}, "text": nest_source(kind, 3000000)})
     cp = os.path.join(work, "src-feed.ndjson")
     with open(cp, "w") as f:
         for c in feed:
@@ -255,8 +267,8 @@ def source(ck, tier, seed):
         nxt = next((c for c in allc if c["cid"] not in obs), None)
         if m and nxt:
             # the crash may come from the goroutine of an earlier input that was given up as hanging: name the parser
-            # functions on the crashing stack rather than trusting the position in the input list
-            fns = collections.Counter(re.findall(r"pkg/parser\.\(\*\w+\)\.(\w+)", txt)).most_common(2)
+            # (or compiler) functions on the crashing stack rather than trusting the position in the input list
+            fns = collections.Counter(re.findall(r"pkg/(?:parser|compiler)\.\(\*\w+\)\.(\w+)", txt)).most_common(2)
             where = "+".join(f for f, _ in fns) or nxt["what"]["kind"]
             ck.mismatch("source/process-crash/%s" % where, {"input_being_processed": nxt["what"], "crash": m.group(0), "stack_functions": fns, "output": txt[:1500]},
                         replay={"kind": "source", "what": nxt["what"]})
@@ -269,7 +281,9 @@ def source(ck, tier, seed):
         if o is None:
             continue
         n = len(c["bytes"]) if "bytes" in c else len(c["text"])
-        for lex in ("compact", "expanded"):
+        for lex in ("compact", "expanded", "compile"):
+            if lex not in o:
+                continue      # compile: only sources the parser accepted
             ck.cov["evaluations"] += 1
             rep = {"kind": "source", "what": c["what"], "bytes": c.get("bytes") if n < 4000 else None}
             judge_run(ck, "source-%s/%s" % (lex, c["what"]["kind"]), o[lex], n, {"input": c["what"]}, seen, rep)
